@@ -579,7 +579,14 @@ def rule_r11(ctx):
                 conds = [x.test for x in _ancestors(c, comp) if isinstance(x, ast.If)] + [x.test for x in comp.body if isinstance(x, ast.If)]
             else:
                 conds = [t for g in comp.generators for t in g.ifs]
-            unique = any(any(isinstance(x, ast.Attribute) and x.attr == "name" for x in ast.walk(t)) for t in conds) or any(
+            def by_name(t) -> bool:
+                # the name decides in every alternative of the test: `table is None or table[a.name] == i` lets every entry through
+                # whenever the first alternative holds
+                if isinstance(t, ast.BoolOp) and isinstance(t.op, ast.Or):
+                    return all(by_name(v) for v in t.values)
+                return any(isinstance(x, ast.Attribute) and x.attr == "name" for x in ast.walk(t))
+
+            unique = any(by_name(t) for t in conds) or any(
                 isinstance(x, ast.Call) and (dotted_of(x.func) or "") in ("dict", "reversed") for x in ast.walk(it)) or isinstance(it, ast.Call) and isinstance(it.func, ast.Attribute) and it.func.attr == "values"
             ctx.check("R11", f"{f.local}: attribute entries are made unique by name before they are deserialized", unique, f, c,
                       f"every entry of `{norm(it)}` is deserialized with the enclosing scopes at hand and only then keyed by name: of two entries with one name "
